@@ -458,16 +458,74 @@ func (h *vHist) listv(q VerListReq, finger string) VerListObs {
 				Spec: fmt.Sprintf("%d entries exist: IsTruncated=%v", nSpec, len(lo.Entries) < nSpec), Finger: "c13:truncation-flag"})
 		}
 	}
-	if lo.OK && lo.Trunc && (lo.NextKey == "" || lo.NextVer == "") && lo.Obs == model {
+	if lo.OK && lo.Trunc && (lo.NextKey == "" || lo.NextVer == "") {
 		// the statement: a truncated result supplies key and version markers
 		h.c.mismatch(Mismatch{Kind: "spec", Backend: "mem", Case: cs, Impl: fmt.Sprintf("IsTruncated=true NextKeyMarker=%q NextVersionIdMarker=%q", lo.NextKey, lo.NextVer),
 			Model: model, Spec: "a truncated page supplies NextKeyMarker and NextVersionIdMarker", Finger: "c13:truncated-without-markers"})
-		h.c.NMism-- // does not end the history: the rest of the listing checks still run
 	}
 	if h.c.NMism > before {
 		h.dead = true
 	}
 	return lo
+}
+
+// walkv follows NextKeyMarker / NextVersionIdMarker from a first page to the end: the pages'
+// entries concatenated must be exactly the unpaginated listing (none skipped or repeated), every
+// common prefix reported exactly once, no page larger than max-keys, and the walk must end
+func (h *vHist) walkv(q VerListReq, full VerListObs) {
+	if h.dead || !full.OK {
+		return
+	}
+	fmtE := func(es []VerEntry) string {
+		var out []string
+		for _, e := range es {
+			out = append(out, fmt.Sprintf("%s:%s:%v:%v", hx(e.Key), e.Vid, e.Marker, e.Latest))
+		}
+		return strings.Join(out, ",")
+	}
+	var got []VerEntry
+	var gotP []string
+	pages := 0
+	cur := q
+	for {
+		lo := h.listv(cur, "walk-page")
+		if h.dead || !lo.OK {
+			return
+		}
+		pages++
+		h.c.R.Evaluations++
+		cs := append([]string{}, h.r.Lines...)
+		fail := func(fp, what string) {
+			h.c.mismatch(Mismatch{Kind: "spec", Backend: "mem", Case: cs, Impl: what, Spec: "the pages of a walk partition the unpaginated listing " + fmtE(full.Entries) + " P=" + keysLine(full.Prefixes),
+				Finger: "c13:" + fp, Note: fmt.Sprintf("walk prefix=%q delim=%q max-keys=%s page=%d", q.Prefix, q.Delim, q.MaxKeys, pages)})
+			h.dead = true
+		}
+		if int64(len(lo.Entries)) > q.ClampedMaxKeys {
+			fail("walk:page-too-large", fmt.Sprintf("%d entries on a page of max-keys %d", len(lo.Entries), q.ClampedMaxKeys))
+			return
+		}
+		got = append(got, lo.Entries...)
+		gotP = append(gotP, lo.Prefixes...)
+		if !lo.Trunc {
+			break
+		}
+		if lo.NextKey == "" || lo.NextVer == "" {
+			fail("truncated-without-markers", fmt.Sprintf("IsTruncated=true NextKeyMarker=%q NextVersionIdMarker=%q", lo.NextKey, lo.NextVer))
+			return
+		}
+		if pages > len(full.Entries)+len(full.Prefixes)+3 {
+			fail("walk:does-not-terminate", fmt.Sprintf("%d pages for %d entries", pages, len(full.Entries)))
+			return
+		}
+		cur.HasKeyMarker, cur.KeyMarker, cur.VerMarker, cur.VerCounter = true, lo.NextKey, lo.NextVer, vidOf(lo.NextVer)
+	}
+	if fmtE(got) != fmtE(full.Entries) || keysLine(gotP) != keysLine(full.Prefixes) {
+		h.c.mismatch(Mismatch{Kind: "spec", Backend: "mem", Case: append([]string{}, h.r.Lines...), Impl: fmtE(got) + " P=" + keysLine(gotP),
+			Spec: "the unpaginated listing: " + fmtE(full.Entries) + " P=" + keysLine(full.Prefixes), Finger: "c13:walk:pages-not-a-partition",
+			Note: fmt.Sprintf("walk prefix=%q delim=%q max-keys=%s pages=%d", q.Prefix, q.Delim, q.MaxKeys, pages)})
+		h.dead = true
+	}
+	h.c.hist(fmt.Sprintf("versions-walk:pages=%d", min(pages, 6)))
 }
 
 func nullIds(spec string) string {
@@ -536,9 +594,17 @@ func runC13(c *Ctx) {
 		for _, pd := range [][2]string{{"k", ""}, {"", "/"}, {"k", "/"}, {"m/", "/"}, {"zz", ""}} {
 			h.listv(VerListReq{HasPrefix: pd[0] != "", Prefix: pd[0], HasDelim: pd[1] != "", Delim: pd[1], ClampedMaxKeys: 1000}, "list-prefix")
 		}
-		// page sizes
+		// page sizes: every walk along the returned markers, without and with prefix / delimiter
 		for mk := 1; mk <= total+1 && mk <= 6; mk++ {
-			h.listv(VerListReq{MaxKeys: fmt.Sprint(mk), ClampedMaxKeys: int64(mk)}, "page")
+			h.walkv(VerListReq{MaxKeys: fmt.Sprint(mk), ClampedMaxKeys: int64(mk)}, lo)
+		}
+		for _, pd := range [][2]string{{"k", ""}, {"", "/"}, {"k", "/"}} {
+			fq := VerListReq{HasPrefix: pd[0] != "", Prefix: pd[0], HasDelim: pd[1] != "", Delim: pd[1], ClampedMaxKeys: 1000}
+			fl := h.listv(fq, "list-prefix")
+			for _, mk := range []int{1, 2, 3} {
+				fq.MaxKeys, fq.ClampedMaxKeys = fmt.Sprint(mk), int64(mk)
+				h.walkv(fq, fl)
+			}
 		}
 		// marker pairs naming existing versions
 		for vi, v := range h.vers {
